@@ -13,7 +13,7 @@ CLAIMED = {
             "DESIGN.md section 3 C02"),
     "C11": ("query", "exploration",
             "deterministic simulation's storage seam as the observation instrument: generated statement grammar x entry points (in-process HTTP router, direct, Flight-SQL prepare/analyze, streaming), per-issuer request log + full store digest + probe query after every statement",
-            "Store populated through the real ingester; real QueryNode behind the real axum router called in-process (no sockets) plus the direct, prepare/analyze and streaming entry points; 8..16 statements per run from a grammar over COPY TO / CREATE [EXTERNAL] TABLE / VIEW / CTAS / DROP / INSERT / SET / EXPLAIN [ANALYZE] of those / multi-statement strings with targets among fresh paths, existing chunk paths and the catalog object, plus plain SELECT/EXPLAIN controls. After every statement: the query node's store handle issued no PUT/DELETE/COPY, the full object listing (path, size, ETag) is unchanged, a fixed probe query answers the same, and a mutating statement returned an error.",
+            "Store populated through the real ingester; real QueryNode behind the real axum router called in-process (no sockets) plus the direct, prepare/analyze and streaming entry points; 8..16 statements per run from a grammar over COPY TO / CREATE [EXTERNAL] TABLE / VIEW / CTAS / DROP / INSERT / SET / EXPLAIN [ANALYZE] of those / multi-statement strings with targets among fresh paths, existing chunk paths and the catalog object, plus plain SELECT/EXPLAIN controls. After every statement: the query node's store handle issued no PUT/DELETE/COPY, the full object listing (path, size, ETag) is unchanged, a fixed probe query answers the same, and a mutating statement returned an error. Added during the build: the node's real Flight SQL service (tonic server as run_query_grpc_server assembles it) reached by arrow-flight's own client over an in-memory duplex - statement queries (GetFlightInfo + DoGet), statement updates (DoPut), prepared statements executed either way; CREATE / DROP SCHEMA and DATABASE, CREATE / DROP FUNCTION, CREATE INDEX, ALTER TABLE, DELETE / UPDATE / TRUNCATE, PREPARE / EXECUTE / DEALLOCATE in the grammar; the session's catalog / schema / table names and configuration options are compared after every statement.",
             "No schedule or fault dimension in this statement; the statement space is seeded generation, the simulator contributes the per-issuer request log.",
             "DESIGN.md section 3 C11"),
     "C15": ("query", "exploration",
@@ -23,12 +23,12 @@ CLAIMED = {
             "DESIGN.md section 3 C15"),
     "C16": ("query", "exploration",
             "deterministic simulation: seeded interleaving of concurrent readers at the backing store's requests (concurrent misses on the same / different keys), store faults on the miss path, swarm of tier sizes; byte-exact oracle against the backing store",
-            "Real CachedObjectStore + TieredCache over the simulated store, growing write-once key set (80..200 objects, 1 B..6 KB) written in waves, 2..4 concurrent readers issuing whole / ranged / conditional reads and reads of never-written keys (sharing file names and prefixes with written ones), L1 from 300 B (evict on every insert) to 8 MB, no disk tier in the seeded phase, foyer disk tier in a thorough-only phase; whenever a read returns bytes they equal the backing store's object (range), a missing key fails, a wrong If-Match fails; injected backing-store failures may fail a read but never produce wrong bytes. Added during the build: response bodies that break part-way (prefix, then error) and readers that go away (a third of the runs drop one read future in eight at a seeded point).",
+            "Real CachedObjectStore + TieredCache over the simulated store, growing write-once key set (80..200 objects, 1 B..6 KB) written in waves, 2..4 concurrent readers issuing whole / ranged / conditional reads and reads of never-written keys (sharing file names and prefixes with written ones), L1 from 300 B (evict on every insert) to 8 MB, no disk tier in the seeded phase, foyer disk tier in a thorough-only phase; whenever a read returns bytes they equal the backing store's object (range), a missing key fails, a wrong If-Match fails; injected backing-store failures may fail a read but never produce wrong bytes. Added during the build: response bodies that break part-way (prefix, then error) and readers that go away (a third of the runs drop one read future in eight at a seeded point). Later: get_ranges with nested / touching / out-of-order ranges, a 60-virtual-second bound on every read, writes that fail before / after taking effect, create-only uploads incl. a refused re-upload of an existing name (the model is what the backing store holds after each attempt), one run in ten with objects of 2..5 MiB, date-conditional reads (If-Modified-Since / If-Unmodified-Since).",
             "Write-once objects; foyer's disk tier runs its own threads, so with L2 only the verdict (not the event log) is timing-independent.",
             "DESIGN.md section 3 C16"),
     "C18": ("query", "exploration",
             "deterministic simulation on the virtual clock: real ingester flushes interleaved by the scheduler with the real streaming executor's forwarding task; reference evaluation of the WHERE clause per flushed batch; independent evaluation of topic filters",
-            "One streaming SQL subscription (legacy or topic-filtered) with a WHERE generated from the supported family (comparisons in both operand orders on string / nullable string / integer / float columns incl. literals of the other numeric type, AND, OR, nesting) plus 1..3 raw topic subscriptions with generated All/Shard/Tenant/Metrics/And/Or filters; batches of both timestamp types, nulls, 1..3 metrics, flushed after the subscription call returned with timestamps before and after the merge point but never inside the call's own interval. Delivered live rows == rows >= merge point satisfying the WHERE as evaluated by DataFusion on that batch, each once, batches in flush order; a topic subscription receives a batch iff the independently evaluated filter holds.",
+            "One streaming SQL subscription (legacy or topic-filtered) with a WHERE generated from the supported family (comparisons in both operand orders on string / nullable string / integer / float columns incl. literals of the other numeric type, AND, OR, nesting) plus 1..3 raw topic subscriptions with generated All/Shard/Tenant/Metrics/And/Or filters; batches of both timestamp types, nulls, 1..3 metrics, flushed after the subscription call returned with timestamps before and after the merge point but never inside the call's own interval. Delivered live rows == rows >= merge point satisfying the WHERE as evaluated by DataFusion on that batch, each once, batches in flush order; a topic subscription receives a batch iff the independently evaluated filter holds. Added during the build: all six operators on the nullable string column, timestamp predicates (integer and TIMESTAMP literal bounds, both operand orders), unsigned column, negative literals, exact float equality (0.1+0.2 vs 0.3), flush thresholds of 4 and 9 rows (several writes per flush), and in half of the runs the same statement as a live subscription over the node's WebSocket endpoint /api/v1/stream (real axum router + hyper + tungstenite over an in-memory duplex).",
             "Subscriber keeps up; merge-point ambiguity is kept out of the verdict by construction of the timestamps.",
             "DESIGN.md section 3 C18"),
     "C14": ("split", "fault_enumeration",
@@ -38,17 +38,17 @@ CLAIMED = {
             "DESIGN.md section 3 C14"),
     "C04": ("query", "exploration",
             "deterministic simulation on the virtual clock with a reference model: real ingest -> (compaction) -> QueryNode pipeline, generated finite-window SELECTs, same SQL on a MemTable of all rows as the oracle",
-            "Datasets placed minutes / hours / days around the virtual now and on hour-bucket edges, ingested through the real Ingester with drawn flush thresholds (different chunkings of the same rows), both catalogs, both timestamp types; 6..12 generated statements per run (both operand orders; integer, TIMESTAMP-literal and now()-relative bounds; BETWEEN, =, AND/OR/NOT nests, unions of windows, windows by negation, label predicates, projections, aggregates, GROUP BY), each cold and warm, before and after a real compaction cycle, tiny/large L1 cache, adaptive indexing on/off, primed or fresh node. Answer must equal the reference as a multiset of canonically rendered rows; an error or panic where the reference succeeds is a violation. Added during the build: a third of the runs query over a flaky store (failed requests, bodies breaking part-way): such a query may fail, a returned answer must still be exact.",
+            "Datasets placed minutes / hours / days around the virtual now and on hour-bucket edges, ingested through the real Ingester with drawn flush thresholds (different chunkings of the same rows), both catalogs, both timestamp types; 6..12 generated statements per run (both operand orders; integer, TIMESTAMP-literal and now()-relative bounds; BETWEEN, =, AND/OR/NOT nests, unions of windows, windows by negation, label predicates, projections, aggregates, GROUP BY), each cold and warm, before and after a real compaction cycle, tiny/large L1 cache, adaptive indexing on/off, primed or fresh node. Answer must equal the reference as a multiset of canonically rendered rows; an error or panic where the reference succeeds is a violation. Added during the build: a third of the runs query over a flaky store (failed requests, bodies breaking part-way): such a query may fail, a returned answer must still be exact. Later: rows before the epoch, chunks lacking the label column, repeated sub-expressions, statements planned on an empty binding, DISTINCT / HAVING, ORDER BY timestamp [DESC] [LIMIT n [OFFSET m]] and 'latest rows' statements compared as sequences, and - in 40 % of the runs - time passing (40 min / 2 h / 25 h), new rows arriving in a chunk of their own and every statement text sent again (now()-relative bounds move with the clock).",
             "Schedule dimension is small (queries run one at a time; C10 covers concurrency): the simulator contributes the clock, the history (chunking, compaction, cache temperature) and the model; predicate shapes are seeded generation. Single-partition plans only.",
             "DESIGN.md section 3 C04"),
     "C10": ("query", "exploration",
             "deterministic simulation: seeded interleaving of 2..4 concurrent QueryNode::query calls at every store request and at the pause point between table registration and planning; each answer compared with the reference evaluation of the same SQL",
-            "One real QueryNode over chunks in distinct eras so that different windows select different chunk sets; concurrent tasks issue projections / aggregates / GROUP BY over one, several or no eras; every concurrent answer must equal the same SQL on a MemTable of all rows (= the statement run alone). Added during the build: a third of the runs also have queries whose client goes away (future dropped at a seeded await point, e.g. between binding the table and planning).",
+            "One real QueryNode over chunks in distinct eras so that different windows select different chunk sets; concurrent tasks issue projections / aggregates / GROUP BY over one, several or no eras; every concurrent answer must equal the same SQL on a MemTable of all rows (= the statement run alone). Added during the build: a third of the runs also have queries whose client goes away (future dropped at a seeded await point, e.g. between binding the table and planning). Later: streaming subscriptions' historical phase among the concurrent calls, label predicates in half of the statements with label values that differ only in letter case or white space (a third of such statements the twin of another one), queries on behalf of two tenants.",
             "The service's multi-thread runtime is replaced by interleaving at await points (store requests + one named pause point): the logical re-binding race is reachable, hardware-level races inside DataFusion are not.",
             "DESIGN.md section 3 C10"),
     "C19": ("cluster", "exploration",
             "deterministic simulation: seeded membership/health/load histories on the virtual clock (real health-check task), route_write under a poll budget; eligibility, termination and assignment-stability oracles",
-            "Real NodeRegistry + run_health_checks + ShardAssignment (all three strategies) + DistributedWriteRouter driven through generated histories (register, heartbeat loss, drain, load, remove, rebalance, time); every route_write must return within 1000 polls with a node whose snapshot can accept writes and that equals the assignment map's single entry, or an error; a shard may move only if its previous node cannot accept writes now or a rebalance ran since.",
+            "Real NodeRegistry + run_health_checks + ShardAssignment (all three strategies) + DistributedWriteRouter driven through generated histories (register, heartbeat loss, drain, load, remove, rebalance, time); every route_write must return within 1000 polls with a node whose snapshot can accept writes and that equals the assignment map's single entry, or an error; a shard may move only if its previous node cannot accept writes now or a rebalance ran since. Added during the build: eligibility judged against the history (removed / drained until re-registered / query-only / last reported load / silence beyond the timeout) instead of the registry's own fields, heartbeat timeouts of 30, 8, 5 and 4 s, a clause on the registry's own status at routing time (Suspected / Failed / Draining nodes must not be returned), a panic of the health-check task is a violation.",
             "Events are applied one at a time; lock-level races on a multi-thread runtime are not explored.",
             "DESIGN.md section 3 C19"),
     "C03": ("compaction", "exploration",
